@@ -633,7 +633,16 @@ def analyse(A, res):
         c = classify_diag(d)
         if c == "ignore":
             continue
-        spans = d.get("spans", [])
+        spans = list(d.get("spans", []))
+        # a span inside a macro expansion (write!, format!, panic! shadows): also attribute it to the macro's call site,
+        # which is in the extracted body
+        for sp in list(spans):
+            ex = sp.get("expansion")
+            while ex:
+                cs = ex.get("span")
+                if cs and cs.get("file_name") == sp.get("file_name") and not any(x.get("byte_start") == cs.get("byte_start") and x.get("byte_end") == cs.get("byte_end") for x in spans):
+                    spans.append(cs)
+                ex = cs.get("expansion") if cs else None
         orgs = []
         for sp in spans:
             org = A.origin_at(sp["byte_start"])
@@ -833,6 +842,13 @@ def failure_props(f, A):
                         props.setdefault(p, [])
                         if "safety" not in props[p]:
                             props[p].append("safety")
+                    # an untagged failure inside a function (loop invariant, ghost assert, closure postcondition, callee
+                    # precondition) breaks the proof of EVERY clause of that function: the postconditions are only
+                    # established relative to it, so Verus does not report them separately
+                    for p in i["props"]:
+                        props.setdefault(p, [])
+                        if not props[p]:
+                            props[p].append("proof-of-" + i["id"].split("::")[-1].replace(" ", "_"))
     return props
 
 
